@@ -65,6 +65,9 @@ def cases(draw):
             named = draw(st.booleans())        # named in description vs bound by update
         tasks.append({'pilot': bound, 'state': state, 'named': named})
     for t in tasks:
+        if t['pilot'] is not None and t.get('named') and draw(st.integers(0, 2)) == 0:
+            t['raptor'] = True
+    for t in tasks:
         # a task whose executable failed carries that error already while it is still on its way
         # through output staging (not final yet)
         if t['pilot'] is not None and t['state'] not in rps.FINAL and draw(st.integers(0, 3)) == 0:
@@ -112,6 +115,10 @@ def run_case(case):
         d = {'uid': 'task.%06d' % i, 'executable': '/bin/true'}
         if t['pilot'] is not None and t['named']:
             d['pilot'] = pilots[t['pilot'] % n_p].uid
+            if t.get('raptor'):
+                # a task addressed to a raptor master running on that pilot
+                d['raptor_id'] = 'raptor.0000'
+                res.label('bound_task_addressed_to_raptor_master')
         tds.append(rp.TaskDescription(d))
     tasks = tm.submit_tasks(tds) if tds else []
     seen_setup = []
